@@ -641,6 +641,15 @@ func configure(g *gen) {
 			{Callee: "_.Set", Stmts: []string{"c := %1 ++ [GoRt.GEv.set %2 %3]"}},
 			{Callee: "accounts[]", Values: []string{"(GoRt.mapGet accounts %1).1", "(GoRt.mapGet accounts %1).2"}, Ts: []T{tStr, tBool}},
 		}})
+	// IgnoreFavIcon: for the path /favicon.ico (and only for it) the chain is aborted and 204 No Content recorded (the
+	// event `abort 204` stands for `c.AbortThen().NoContent()`); `c.URL().Path` is a parameter
+	add(FnSpec{Pkg: "pkg/handlers", Func: "IgnoreFavIcon", Lean: "IgnoreFavIcon", Inner: true,
+		Extra: []string{"(urlPath : Bytes)"}, MutParams: []string{"c"}, RetExtra: []string{"c"}, RetExtraT: []string{"List GoRt.GEv"},
+		Types: map[string]T{"*rux.Context": gctx},
+		Exts: []Ext{
+			{Callee: "c.URL().Path", Value: "urlPath", T: tStr},
+			{Callee: "c.AbortThen().NoContent", Stmts: []string{"c := c ++ [GoRt.GEv.abort 204]"}},
+		}})
 	// PanicsHandler: a middleware that recovers whatever the rest of the chain panics with and records status 500.
 	// `c.Next()` is the parameter `next` (the context afterwards and the panic it ended with, if any)
 	add(FnSpec{Pkg: "pkg/handlers", Func: "PanicsHandler", Lean: "PanicsHandler", Inner: true, DeferRecover: true, PnIndex: 1,
